@@ -15,6 +15,9 @@ Distances are cross-multiplied to integers in units of `2^-1074`:
 float of exponent `k - 1074` on the same scale.
 -/
 import TeraModel.Lemmas.SoftFloatOps
+import TeraModel.Lemmas.SoftFloatBits
+import TeraModel.Lemmas.SoftFloatRange
+import TeraModel.Lemmas.SoftFloatEuclid
 import TeraModel.Props.C13
 namespace Tera.C13Float
 open Tera Tera.SoftFloat
@@ -46,6 +49,28 @@ theorem roundDyadic_nearest (neg : Bool) (num den : Nat) (hd : 0 < den) :
   obtain ⟨m, k, hR, heq⟩ := roundDyadic_spec neg num den hd
   exact ⟨m, k, heq, hR.lt, hR.normal_or_sub, hR.half_ulp, hR.tie_even, hR.nearest,
     hR.nearest_tie_even, hR.exact hd, hR.overflow_iff⟩
+
+/-- **T1 (overflow threshold).** `roundDyadic` returns infinity exactly when
+`num/den ≥ (2^54 - 1) * 2^970`, the midpoint between `f64::MAX = (2^53 - 1) * 2^971` and `2^1024`
+(the midpoint itself is a tie between MAX's odd significand and the even `2^1024`: it goes up). -/
+theorem roundDyadic_overflow_iff (neg : Bool) (num den : Nat) (hd : 0 < den) :
+    roundDyadic neg num den = .inf neg ↔ (2 ^ 54 - 1) * 2 ^ 970 * den ≤ num :=
+  SoftFloat.roundDyadic_overflow_iff neg num den hd
+
+/-- **T1 (bit patterns).** What `roundDyadic` returns is in the canonical form of the bit
+decoding: encoding it (`F64.toBits`, what the driver prints and the harness compares) and decoding
+again gives the same value, so nothing is hidden by the encoder's own normalisation. -/
+theorem roundDyadic_bits_roundtrip (neg : Bool) (num den : Nat) (hd : 0 < den) :
+    F64.ofBits (F64.toBits (roundDyadic neg num den)) = roundDyadic neg num den :=
+  ofBits_toBits_roundDyadic neg num den hd
+
+/-- The same for the four arithmetic operations, for *all* operands (finite, infinite, NaN). -/
+theorem results_canonical (a b : F64) :
+    F64.ofBits (F64.toBits (SoftFloat.add a b)) = SoftFloat.add a b ∧
+    F64.ofBits (F64.toBits (SoftFloat.sub a b)) = SoftFloat.sub a b ∧
+    F64.ofBits (F64.toBits (SoftFloat.mul a b)) = SoftFloat.mul a b ∧
+    F64.ofBits (F64.toBits (SoftFloat.div a b)) = SoftFloat.div a b :=
+  ⟨canonical_add a b, canonical_sub a b, canonical_mul a b, canonical_div a b⟩
 
 /-- `roundDyadic` is a function of the rational: equal fractions round to the same float. -/
 theorem roundDyadic_well_defined (neg : Bool) (n1 d1 n2 d2 : Nat) (h1 : 0 < d1) (h2 : 0 < d2)
@@ -162,6 +187,21 @@ theorem fmod_exact (a b : F64) (ha : IsF64 a) (hb : IsF64 b) (hz : b.isZero = fa
     linarith
   · rw [h5, Int.natAbs_tmod]
     exact Nat.mod_lt _ (Int.natAbs_pos.mpr hub)
+
+/-- **`rem_euclid` (the `%` of number.rs on floats).** For representable operands and `b ≠ 0`, with
+the operands as integers in units of `2^-1074`: the result is the *Euclidean* remainder
+`units a % units b` (`Int.emod`, `0 ≤ r < |b|`) rounded once to nearest-even — hence exactly the
+Euclidean remainder whenever that is representable (always when `a ≥ 0` or `b` divides `a`; for
+`a < 0` it is `fmod a b + |b|`, which may round, even up to `|b|` itself); a zero remainder keeps
+the sign of `a` like the hardware (`(-6.0).rem_euclid(3.0) = -0.0`). -/
+theorem rem_euclid_rounded (a b : F64) (ha : IsF64 a) (hb : IsF64 b) (hz : b.isZero = false) :
+    remEuclid a b =
+      if units a % units b = 0 then zero (signBit a)
+      else roundDyadic false (units a % units b).toNat (2 ^ 1074) := by
+  cases a <;> cases b <;> simp only [IsF64] at ha hb
+  rename_i sa ma ea sb mb eb
+  have hmb : mb ≠ 0 := by simpa [F64.isZero] using hz
+  exact remEuclid_rounded sa sb ma mb ea eb ha hb hmb
 
 /-- `units x` is the exact value of `x` (`x.num / x.den`) times `2^1074`. -/
 theorem units_value (s : Bool) (m : Nat) (e : Int) (he : -1074 ≤ e) :
@@ -323,6 +363,10 @@ example : onBits divEuclid 0xc01c000000000000 0x4008000000000000 = 0xc0080000000
 example : onBits divEuclid 0x401c000000000000 0xc008000000000000 = 0xc000000000000000 := by decide +kernel
 -- the documented rounding artefact of rem_euclid: (-1e-20).rem_euclid(3.0) = 3.0
 example : onBits remEuclid 0xbbc79ca10c924223 0x4008000000000000 = 0x4008000000000000 := by decide +kernel
+-- overflow threshold (T1): MAX + 2^970 is exactly (2^54 - 1) * 2^970
+example : (2 ^ 53 - 1) * 2 ^ 971 + 2 ^ 970 = (2 ^ 54 - 1) * 2 ^ 970 := by decide +kernel
+-- rem_euclid as the rounded Euclidean remainder: -7 and 3 in units of 2^-1074
+example : (-7 * 2 ^ 1074 : Int) % (3 * 2 ^ 1074) = 2 * 2 ^ 1074 := by decide +kernel
 -- results are in the canonical form of `ofBits`
 example : SoftFloat.add (F64.ofBits 0x3fb999999999999a) (F64.ofBits 0x3fc999999999999a)
     = F64.ofBits 0x3fd3333333333334 := by decide +kernel
